@@ -141,6 +141,13 @@ def gen_specs(tier, seed):
             for params in plist:
                 if all(p < n for p in params) and (dtype != "int" or tier == "thorough" or len(params) <= 2):
                     specs.append(("array", dtype, rl, "none", tuple(params), "none"))
+                    if len(set(rl)) == 1 and n >= 2 and (tier == "thorough" or params in plist[:3]):
+                        # parameters among the elements x a declared shape that fits / is transposed (same number of elements,
+                        # other layout: refused, not rearranged) / is symbolic
+                        specs.append(("array", dtype, rl, "exact", tuple(params), "none"))
+                        specs.append(("array", dtype, rl, "wrong", tuple(params), "arg"))
+                        if tier != "thorough":
+                            specs.append(("array", dtype, rl, "sym", tuple(params), "none"))
                     if len(set(rl)) == 1 and tier == "thorough" and not (n == 1 and len(params) == 1):
                         # (a body of one bare parameter is a whole-array parameter: its shape must be concrete)
                         specs.append(("array", dtype, rl, "sym", tuple(params), "none"))
